@@ -53,8 +53,12 @@ SALTED = {"md5_crypt": "chars", "apr_md5_crypt": "chars", "sha256_crypt": "chars
           "ldap_sha1_crypt": "chars", "ldap_bcrypt": "fixed"}
 # algorithm-variant settings: hasher -> {keyword: {accepted spelling: value the hash must carry}}; anything else must be refused
 FSHP_V = {0: 0, 1: 1, 2: 2, 3: 3, "0": 0, "1": 1, "2": 2, "3": 3, "sha1": 0, "sha256": 1, "sha384": 2, "sha512": 3}
-PALETTE = sorted(set(COST) | set(SALTED) | {"ldap_md5_crypt", "unix_disabled", "hex_md5", "mysql41"})
-IDENTS = {"bcrypt": ["2a", "2b", "2y", "2", "$2b$", "9z"], "phpass": ["P", "H", "$P$", "Q"], "django_bcrypt": ["2a", "2b"]}
+PALETTE = sorted(set(COST) | set(SALTED) | {"ldap_md5_crypt", "unix_disabled", "hex_md5", "mysql41", "cisco_type7"})
+CORE = ("sha256_crypt", "sha512_crypt", "bcrypt", "bcrypt_sha256", "pbkdf2_sha256", "pbkdf2_sha1", "sha1_crypt", "phpass", "scrypt", "bsdi_crypt",
+        "django_pbkdf2_sha256", "ldap_sha256_crypt", "django_bcrypt", "pbkdf2_sha512", "md5_crypt", "apr_md5_crypt", "ldap_salted_sha1",
+        "django_salted_sha1", "des_crypt", "ldap_md5_crypt", "unix_disabled", "hex_md5", "mysql41")
+IDENTS = {"bcrypt": ["2a", "2b", "2y", "2", "$2b$", "9z"], "phpass": ["P", "H", "$P$", "Q"], "django_bcrypt": ["2a", "2b"],
+          "bcrypt_sha256": ["2a", "2a", "2b"]}
 TRUNC = {"bcrypt": 72, "des_crypt": 8, "django_bcrypt": 72}  # hasher -> size limit in bytes
 ATTRS = ["name", "default_rounds", "min_rounds", "max_rounds", "min_desired_rounds", "max_desired_rounds", "vary_rounds", "rounds_cost",
          "default_salt_size", "min_salt_size", "max_salt_size", "default_ident", "truncate_error", "truncate_size", "default_marker", "version",
@@ -105,6 +109,8 @@ def _gen_settings(rng, name):
         kw["ident"] = rng.choice(IDENTS[name])
     if name == "bcrypt_sha256" and rng.random() < 0.4:
         kw["version"] = rng.choice([1, 2, 2, 3])
+    if name == "cisco_type7" and rng.random() < 0.8:
+        kw["salt"] = rng.choice([-5, -1, 0, 7, 33, 52, 53, 99])  # the one hasher with an integer salt: hard limits 0..52
     if name == "fshp" and rng.random() < 0.6:
         kw["variant"] = rng.choice([0, 0, 1, 2, 3, "0", "2", "sha1", "sha384", "sha512", 4, "md5"])
     if name == "scrypt" and rng.random() < 0.4:
@@ -119,7 +125,15 @@ def _gen_settings(rng, name):
 
 
 def generate(rng, prop, tier):
-    hashers = rng.sample(PALETTE, rng.choice([1, 2, 2, 3]))
+    # the first palette (hashers with the richest option surface: costs, idents, truncation, backends) keeps 60% of the weight;
+    # the later additions share the rest -- widening the palette must not thin out the runs that reach the rare combinations
+    core = [h for h in PALETTE if h in CORE]
+    ext = [h for h in PALETTE if h not in CORE]
+    hashers = []
+    for _ in range(rng.choice([1, 2, 2, 3])):
+        h = rng.choice(core if rng.random() < 0.6 or not ext else ext)
+        if h not in hashers:
+            hashers.append(h)
     nclients = rng.choice([2, 2, 3, 4])
     ops = []
     nnodes = len(hashers)  # nodes 0..len-1 are the globals; derive ops append
@@ -173,6 +187,31 @@ def generate(rng, prop, tier):
             sc[2], sc[3] = sc[3], sc[2]
             sc[2] = dict(sc[2])
         ops.extend(sc)
+        nnodes += 2
+    # scenario: a truncation policy is switched on and off again along a chain, and both links hash an over-long password
+    trunc = [i for i, h in enumerate(hashers) if h in TRUNC]
+    if trunc and rng.random() < 0.4:
+        g = rng.choice(trunc)
+        c = rng.randrange(nclients)
+        first, second = rng.choice([(True, False), (True, False), (False, True), ("true", "false")])
+        long_pw = "L" * 80 if hashers[g] != "des_crypt" else rng.choice(["123456789", "pässwörd"])
+        cost = {"rounds": COST[hashers[g]][0]} if hashers[g] in COST else {}
+        ops.extend([{"op": "derive", "client": c, "parent": g, "settings": dict(cost, truncate_error=first), "relaxed": False},
+                    {"op": "derive", "client": c, "parent": nnodes, "settings": {"truncate_error": second}, "relaxed": False},
+                    {"op": "hash", "client": c, "node": nnodes + 1, "pw": long_pw},
+                    {"op": "hash", "client": c, "node": nnodes, "pw": long_pw}])
+        nnodes += 2
+    # scenario: a wrapper version / bcrypt variant pair is set in one step and half of it changed in the next
+    if "bcrypt_sha256" in hashers and rng.random() < 0.4:
+        g = hashers.index("bcrypt_sha256")
+        c = rng.randrange(nclients)
+        v1, i1 = rng.choice([(1, "2a"), (1, "2a"), (1, "2b"), (2, "2b")])
+        second = rng.choice([{"version": 2}, {"version": 2}, {"ident": "2a"}, {"version": 1}])
+        ops.extend([{"op": "derive", "client": c, "parent": g, "settings": {"rounds": 4, "version": v1, "ident": i1}, "relaxed": False},
+                    {"op": "derive", "client": c, "parent": nnodes, "settings": second, "relaxed": False},
+                    {"op": "hash", "client": c, "node": nnodes + 1, "pw": "pw"},
+                    {"op": "hash", "client": c, "node": nnodes, "pw": "pw"}])
+        nnodes += 2
     return {"cfg": {"hashers": hashers, "clients": nclients, "seed": rng.getrandbits(32)}, "ops": ops}
 
 
@@ -376,7 +415,12 @@ class _W:
                     self.ctx.fault("beyond_hard_limit_relaxed")
                     s = max(smin, min(s, smax)) if smax is not None else max(smin, s)
                 c.salt_size = s
-        if "ident" in kw:
+        if "ident" in kw and base == "bcrypt_sha256":
+            # which (version, variant) pairs the wrapper allows along a chain is not modelled (version 2 insists on 2b); whatever is
+            # accepted is judged by the hashes it makes: they must be the hasher's own, verify and carry the version in force
+            verdict = "either" if verdict == "ok" else verdict
+            c.variant["_ident_set"] = True
+        elif "ident" in kw:
             if base in IDENTS:
                 good = {"bcrypt": ["2a", "2b", "2y", "2", "$2b$"], "phpass": ["P", "H", "$P$"], "django_bcrypt": ["2a", "2b"]}[base]
                 if kw["ident"] not in good:
@@ -387,7 +431,7 @@ class _W:
         if "version" in kw:
             if kw["version"] not in (1, 2):
                 return "must-raise", c
-            verdict = "either" if verdict == "ok" and kw["version"] == 1 else verdict  # v1 + ident combinations: not modelled
+            verdict = "either" if verdict == "ok" and (kw["version"] == 1 or c.variant.get("_ident_set")) else verdict  # version x variant pairs: not modelled
             c.variant["version"] = kw["version"]
         if "block_size" in kw or "parallelism" in kw:
             verdict = "either" if verdict == "ok" else verdict
@@ -401,6 +445,15 @@ class _W:
                         c.variant_unknown = True
                     else:
                         c.variant[k] = max(1, kw[k]) if relaxed else kw[k]
+        if "salt" in kw and base == "cisco_type7":
+            v = kw["salt"]
+            if 0 <= v <= 52:
+                c.variant["salt"] = v
+            elif not relaxed:
+                return "must-raise", c
+            else:
+                self.ctx.fault("beyond_hard_limit_relaxed")
+                c.variant["salt"] = 0 if v < 0 else 52  # clamped to the limit that was exceeded
         if "variant" in kw:
             if base != "fshp":
                 return "either", c
@@ -462,11 +515,14 @@ class _W:
                 carried = {"variant" if base == "fshp" else "version": ex[1][0]}
             default = {"variant": 1, "version": 2, "block_size": 8, "parallelism": 1}
             for k, got in carried.items():
-                if getattr(n, "variant_unknown", False):
+                if k.startswith("_") or getattr(n, "variant_unknown", False):
                     continue
                 want = n.variant.get(k, default[k])
                 ctx.check(got == want, "C09", "variant-differs-from-settings",
                           lambda: f"{where}: {base} configured {k}={want!r} (settings in force {n.variant}): hash {h!r} carries {got!r}", hasher=base, setting=k)
+        if base == "cisco_type7" and "salt" in n.variant and not n.dirty:
+            ctx.check(h[:2].isdigit() and int(h[:2]) == n.variant["salt"], "C09", "variant-differs-from-settings",
+                      lambda: f"{where}: cisco_type7 configured salt={n.variant['salt']}: hash {h!r} carries {h[:2]!r}", hasher=base, setting="salt")
         if n.ident and base in ("bcrypt", "phpass"):
             pre = "$" + n.ident + "$"
             ctx.check(h.startswith(pre), "C09", "ident-differs-from-settings", f"{where}: ident {n.ident}: {h!r}", hasher=base)
